@@ -3,7 +3,7 @@
     findings; the lexer/parser/builtin bodies are decided by correspondence in
     debug and release builds).  Statements only. *)
 From JP Require Import Base F64 Value Sig Slice Functions Interp Spec.SliceSpec Spec.Semantics Spec.SigSpec
-     Proofs.InterpProof Proofs.TotalProof.
+     Lexer Parser Proofs.InterpProof Proofs.TotalProof Proofs.ParseErrProof.
 
 (** Slices return for the whole 32-bit range of start/stop/step (no overflow, no out-of-bounds index, no loop). *)
 Theorem C05_slice_returns : forall (A : Type) (arr : list A) start stop step, i32_min <= step -> step <> 0 -> returns (slice arr start stop step).
@@ -23,3 +23,9 @@ Print Assumptions C05_validate_returns.
 Theorem C05_core_search_returns : forall n rt e d o, core e = true -> (height e <= n)%nat -> returns (interp n rt d e o).
 Proof. exact core_returns. Qed.
 Print Assumptions C05_core_search_returns.
+
+(** compile never panics: the lexer, the embedded JSON reader and the parser have no reachable trap
+    (no unchecked arithmetic, no out-of-bounds index, no unreachable arm), for every input string. *)
+Theorem C05_compile_never_traps : forall s, parse s <> Trap.
+Proof. exact compile_never_traps. Qed.
+Print Assumptions C05_compile_never_traps.
